@@ -294,3 +294,13 @@ package recordio
 //@   ensures r1 != nil ==> r0 == nil
 //@   fresh r0
 //@   modifies nothing
+
+//@ func CompressionType
+//@   assumed
+//@   modifies nothing
+//@ func DirectIO
+//@   assumed
+//@   modifies nothing
+//@ func IsDirectIOAvailable
+//@   assumed
+//@   modifies nothing
